@@ -5,7 +5,7 @@
     behind"); the theorems below say how much of the stream each sampler consumes ([consumes us r n]: us = pre ++ r
     with n = length pre), which is what the check compares with the state of the real std::mt19937 after the call. *)
 From Coq Require Import ZArith List Reals.
-From LP Require Import Num NumR C18_Model C18_Proofs C18_Proofs_R.
+From LP Require Import Num NumR C18_Model C18_Proofs C18_Proofs_R C18_Proofs_St C18_Proofs_StR.
 Import ListNotations.
 
 (** ** consumption, for an arbitrary number type (control flow only; valid verbatim for doubles) *)
@@ -255,3 +255,55 @@ Print Assumptions C18_poisson_total.
 Theorem C18_sample_gauss_at_zero mean sd r : sample_gauss ROps mean sd (0 :: r) = Ok (mean + sqrt 2 * sd * - (10), r).
 Proof. exact (sample_gauss_at_zero mean sd r). Qed.
 Print Assumptions C18_sample_gauss_at_zero.
+
+(** ** re-entrant use: a target density / user function that itself draws random numbers — from the generator the sampler
+    is working on, or from anything else it owns ([A]) — is a function  x -> state -> res (value * state)  (section
+    ModelSt of C18_Model.v: the C++ statements with the state threaded through every evaluation of the function).
+    "exactly the requested number of samples for every burn-in and thinning setting" does not depend on what the
+    density does: *)
+Section ReentrantAnyNumberType.
+Context {T : Type} (Ops : NumOps T) {A : Type}.
+Theorem C18_metropolis_count_reentrant (PDF : @sfun1 T A) sigma sample thin burn domain (s : @st T A) l s' :
+  (1 <= thin)%Z -> (0 <= burn)%Z -> (0 <= sample)%Z -> (burn + thin * sample < 4294967296)%Z ->
+  sample_metropolis_st Ops PDF sigma sample thin burn domain s = Ok (l, s') ->
+  Z.of_nat (length l) = sample.
+Proof. exact (metropolis_st_count Ops PDF sigma sample thin burn domain s l s'). Qed.
+
+Theorem C18_metropolis_2d_count_reentrant (PDF : @sfun2 T A) s1 s2 sample thin burn domain (s : @st T A) l s' :
+  (1 <= thin)%Z -> (0 <= burn)%Z -> (0 <= sample)%Z -> (burn + thin * sample < 4294967296)%Z ->
+  sample_metropolis_2d_st Ops PDF s1 s2 sample thin burn domain s = Ok (l, s') ->
+  Z.of_nat (length l) = sample.
+Proof. exact (metropolis_2d_st_count Ops PDF s1 s2 sample thin burn domain s l s'). Qed.
+
+(** with a pure function the re-entrant samplers ARE the samplers above, and what the function owns is handed back
+    untouched (so every theorem of this file applies to them) *)
+Theorem C18_metropolis_reentrant_pure PDF sigma sample thin burn domain us (a : A) l r :
+  sample_metropolis Ops PDF sigma sample thin burn domain us = Ok (l, r) ->
+  sample_metropolis_st Ops (@lift1 T A PDF) sigma sample thin burn domain (us, a) = Ok (l, (r, a)).
+Proof. exact (sample_metropolis_st_pure Ops PDF sigma sample thin burn domain us a l r). Qed.
+
+Theorem C18_metropolis_2d_reentrant_pure PDF s1 s2 sample thin burn domain us (a : A) l r :
+  sample_metropolis_2d Ops PDF s1 s2 sample thin burn domain us = Ok (l, r) ->
+  sample_metropolis_2d_st Ops (@lift2 T A PDF) s1 s2 sample thin burn domain (us, a) = Ok (l, (r, a)).
+Proof. exact (sample_metropolis_2d_st_pure Ops PDF s1 s2 sample thin burn domain us a l r). Qed.
+
+Theorem C18_rejection_reentrant_pure PDF xMin xMax yMax us (a : A) x r :
+  rejection_sampling Ops PDF xMin xMax yMax us = Ok (x, r) ->
+  rejection_sampling_st Ops (@lift1 T A PDF) xMin xMax yMax (us, a) = Ok (x, (r, a)).
+Proof. exact (rejection_sampling_st_pure Ops PDF xMin xMax yMax us a x r). Qed.
+End ReentrantAnyNumberType.
+Print Assumptions C18_metropolis_count_reentrant.
+Print Assumptions C18_metropolis_2d_count_reentrant.
+Print Assumptions C18_metropolis_reentrant_pure.
+Print Assumptions C18_metropolis_2d_reentrant_pure.
+Print Assumptions C18_rejection_reentrant_pure.
+
+(** containment in a bounded domain with a re-entrant density: whatever the density consumes, as long as it leaves
+    canonical uniforms (>= 0) in the generator *)
+Theorem C18_metropolis_in_domain_reentrant {A : Type} (PDF : @sfun1 R A) sigma sample thin burn lo hi (s : @st R A) l s' :
+  keeps_stream PDF -> lo <= hi -> Forall (fun u => 0 <= u < 1) (fst s) ->
+  sample_metropolis_st ROps PDF sigma sample thin burn [lo; hi] s = Ok (l, s') ->
+  Forall (fun z => lo <= z <= hi) l.
+Proof. exact (metropolis_st_in_domain PDF sigma sample thin burn lo hi s l s'). Qed.
+Print Assumptions C18_metropolis_in_domain_reentrant.
+
